@@ -337,3 +337,11 @@ METAS.append(('spellings', {
     'nl': 'line\r\n', 'uni': 'e\u0301 \u212b', 'empty': '',
     'revision': {'old': '00000000', 'new': '0'}}))
 META_BY_NAME['spellings'] = METAS[-1][1]
+
+# line structure mixtures: a dos text with bare-LF lines that are followed
+# by blanks, lone CRs followed by blanks, a text that starts with LF and
+# ends in a lone CR, blank-only lines
+TEXTS.append(('mixed-indented', 'a\r\nb\n  c\r\n d\r e\r\n'))
+TEXTS.append(('lf-first-cr-last', '\nx\r'))
+TEXTS.append(('blank-lines-only', '\n  \n\n'))
+TEXT_BY_NAME.update(dict(TEXTS[-3:]))
